@@ -155,6 +155,26 @@ def check_case(ctx, tr, case):
     finally:
         np.random.set_state(state)
     events = tr.collect()
+    if ek.get('verbose') and ek['nprocesses'] == 1:
+        # the same call, same random state, without the verbosity override (single worker: the members' noise is drawn in the same
+        # order): which noise is added, and the result, may not depend on how much is logged
+        np.random.seed(case['rng_seed'])
+        tr.begin(case['kind'])
+        try:
+            ek0 = {k: v for k, v in ek.items() if k != 'verbose'}
+            if case['kind'] == 'ens':
+                out0 = S.ensemble_sift(x.copy(), max_imfs=cap, **ek0, **kw)
+            else:
+                out0, _ = S.complete_ensemble_sift(x.copy(), max_imfs=cap, **ek0, **kw)
+        finally:
+            np.random.set_state(state)
+        tr.collect()
+        ctx.count('calls_repeated_without_the_verbosity_override')
+        if out0.shape != out.shape or not np.array_equal(out0, out):
+            ctx.violation('depends-on-verbosity:' + case['kind'], '%s with verbose=%r and without give different results from the same random state (nprocesses=1): '
+                          'shapes %s / %s, max diff %s' % ('ensemble_sift' if case['kind'] == 'ens' else 'complete_ensemble_sift', ek['verbose'], out.shape, out0.shape,
+                                                           '%.3g' % np.abs(out0 - out).max() if out0.shape == out.shape else 'n/a'), case)
+            return
     ctx.count('calls:' + case['kind'])
     ctx.count('noise_level:%g' % lvl)
     ctx.count('mode:' + ek['noise_mode'])
